@@ -2,7 +2,7 @@
 import ast
 from ..affine import Lin
 from ..front import dotted, const_value, unparse, walk_no_nested, parent_map, kwarg
-from ..core import holds, violation, unrecognised
+from ..core import holds, violation, unrecognised, named
 from ..flow import AbsInt
 from ..rules import pure_params, inline_locals
 from ..axes import chain, flat_args, apply_perm, PERMUTERS
@@ -109,7 +109,7 @@ def run(repo, tier):
                 out.append(unrecognised("R-AXES", sm, role, bad, r))
                 continue
             if got != want:
-                out.append(violation("R-AXES", sm, role,
+                out.append(named("R-AXES", sm, role,
                                      "reshape lists %s but mutants are enumerated %s-major: flat index = %s" % (
                                          got, layout[0], " * ".join(layout)), r,
                                      witness={"reshape": unparse(r)[:120], "producer_layout": layout, "reshape_labels": labels}))
